@@ -249,3 +249,30 @@ def timeApply (d0 d1 : Int) (r0 r1 : Rat) (t : Int) : Rat := Scale.apply false d
 def timeInvert (d0 d1 : Int) (r0 r1 : Rat) (y : Rat) : Rat := Scale.invert false d0 d1 r0 r1 y
 
 end Labella.Calendar
+
+namespace Labella.Calendar
+
+def monthNames : List String := ["January", "February", "March", "April", "May", "June", "July", "August",
+  "September", "October", "November", "December"]
+def dayNames : List String := ["Sun", "Mon", "Tue", "Wed", "Thu", "Fri", "Sat"]
+
+def pad2 (n : Int) : String := (if n < 10 then "0" else "") ++ toString n
+
+/-- `scale.mytimeformat` (C locale): year / month name / "Mon dd" on Sundays / "Day dd" / hour am-pm / HH:MM / :SS -/
+def timeFormat (t : Int) : String :=
+  let d := t / msPerDay
+  let c := civil d
+  let ms := t % msPerDay
+  let hh := ms / 3600000
+  let mm := ms % 3600000 / 60000
+  let ss := ms % 60000 / 1000
+  let mon := monthNames.getD (c.2.1 - 1) "?"
+  if c.2.2 = 1 ∧ c.2.1 = 1 then toString c.1
+  else if c.2.2 = 1 then mon
+  else if weekdaySun0 d = 0 ∧ hh = 0 ∧ mm = 0 ∧ ss = 0 then (mon.take 3).toString ++ " " ++ pad2 c.2.2
+  else if hh = 0 ∧ mm = 0 ∧ ss = 0 then dayNames.getD (weekdaySun0 d).toNat "?" ++ " " ++ pad2 c.2.2
+  else if mm = 0 ∧ ss = 0 then pad2 (if hh % 12 = 0 then 12 else hh % 12) ++ " " ++ (if hh < 12 then "AM" else "PM")
+  else if ss = 0 then pad2 hh ++ ":" ++ pad2 mm
+  else ":" ++ pad2 ss
+
+end Labella.Calendar
